@@ -131,6 +131,7 @@ func cmdVerify(args []string) {
 				fmt.Println("  note:", n)
 			}
 		}
+		shownErr := false
 		for _, r := range fr.Results {
 			if r == nil {
 				continue
@@ -148,8 +149,9 @@ func cmdVerify(args []string) {
 				if r.Status == "failed" && *verbose {
 					fmt.Println(indent(trimModel(r.Model), "      "))
 				}
-				if r.Status == "error" {
-					fmt.Println(indent(firstLines(r.Raw, 5), "      "))
+				if r.Status == "error" && !shownErr {
+					shownErr = true
+					fmt.Println(indent(firstLines(r.Raw, 2), "      "))
 				}
 			}
 		}
